@@ -265,7 +265,40 @@ pub fn gen_layer(rng: &mut Rng, idx: usize, pages: &[u16], ncol: u32, big: bool)
     l
 }
 
+/// a document whose first layer is 150..=200 x 90..=120 cells, nearly all of them in the long (14-byte) form, with every
+/// combination of hidden / locked / alpha-locked and now and then an empty row: more than 300 KB of layer data, the
+/// largest the quantifier allows (about 1 in 400 documents; each costs a second for the embedded preview)
+fn gen_huge_doc(rng: &mut Rng) -> DocD {
+    let (w, h) = (rng.range(150, 200) as i32, rng.range(90, 120) as i32);
+    let mut d = DocD::single(w, h);
+    d.layers.clear();
+    d.fonts.push(FontD { slot: 0, name: "Font 0".into(), height: 16, builtin: Some(0), data: vec![], sauce_name: None });
+    let mut l = LayerD::plain(w, h);
+    l.title = "huge".into();
+    l.visible = rng.bool();
+    l.locked = rng.bool();
+    l.alpha = rng.bool();
+    l.alpha_locked = rng.bool();
+    let empty_row = if rng.bool() { Some(rng.range(80, (h - 1) as i64) as i32) } else { None };
+    for y in 0..h {
+        if Some(y) == empty_row {
+            continue;
+        }
+        for x in 0..w {
+            if rng.chance(1, 40) {
+                continue;
+            }
+            l.cells.push(CellD { x, y, ch: 0x100 + ((x * 7 + y * 13) % 0x2000) as u32, fg: rng.below(16) as u32, bg: rng.below(16) as u32, attr: 0, fp: 0 });
+        }
+    }
+    d.layers.push(l);
+    d
+}
+
 pub fn gen_doc(rng: &mut Rng) -> DocD {
+    if rng.chance(1, 400) {
+        return gen_huge_doc(rng);
+    }
     let big = rng.chance(1, 25);
     let w = if big { rng.range(0, 200) as i32 } else { rng.range(0, 40) as i32 };
     let h = if big { rng.range(0, 120) as i32 } else { rng.range(0, 20) as i32 };
@@ -398,7 +431,7 @@ impl Prop for C07 {
         "C07"
     }
     fn rule(&self) -> &'static str {
-        "documents with 1..=6 layers (one in eight above the first an image layer: role Image with a sixel picture of up to 40x30 pixels; sizes 0..=200 x 0..=120, mostly <= 40x20 because every save PNG-encodes a preview; offsets -50..=50; all combinations of visible / locked / position-locked / alpha / alpha-locked; modes normal/chars/attributes; colour tags; transparency; Unicode and 300-character titles; rows ending before and at the layer width; short-form and long-form cells incl. characters > 0xFFFF, colours > 255 and the transparent colour; attribute flags), palettes of 1..=300 colours (also prefixes, the whole, extensions and one-colour variations of the stock DOS palette), font slots from {0,1,2,5,42,100,255,256,300} with built-in pages 0..=42 (also in slot 0: names longer than the SAUCE font field) and custom fonts of height 8/14/16/19/32 (also in slot 0, whose size the preview uses, and also under the stock font's name), every referenced page present, with and without SAUCE, are saved with Buffer::to_bytes(\"icy\", lossles_output) and loaded with Buffer::from_bytes; a field-by-field comparator checks buffer size and modes, every layer property incl. the role (image layers: picture size, scales and RGBA bytes), every cell inside the layer size (invisible cells as invisible only), the palette, every font slot (name, size, length, glyph bytes) and the SAUCE fields. distinct_nontrivial = distinct (size, layer shapes and flags, fonts, palette length) documents"
+        "documents with 1..=6 layers (about one in 400 documents is a single 150..=200 x 90..=120 layer of long-form cells - over 300 KB of layer data - hidden / locked / alpha-locked in every combination; one in eight above the first an image layer: role Image with a sixel picture of up to 40x30 pixels; sizes 0..=200 x 0..=120, mostly <= 40x20 because every save PNG-encodes a preview; offsets -50..=50; all combinations of visible / locked / position-locked / alpha / alpha-locked; modes normal/chars/attributes; colour tags; transparency; Unicode and 300-character titles; rows ending before and at the layer width; short-form and long-form cells incl. characters > 0xFFFF, colours > 255 and the transparent colour; attribute flags), palettes of 1..=300 colours (also prefixes, the whole, extensions and one-colour variations of the stock DOS palette), font slots from {0,1,2,5,42,100,255,256,300} with built-in pages 0..=42 (also in slot 0: names longer than the SAUCE font field) and custom fonts of height 8/14/16/19/32 (also in slot 0, whose size the preview uses, and also under the stock font's name), every referenced page present, with and without SAUCE, are saved with Buffer::to_bytes(\"icy\", lossles_output) and loaded with Buffer::from_bytes; a field-by-field comparator checks buffer size and modes, every layer property incl. the role (image layers: picture size, scales and RGBA bytes), every cell inside the layer size (invisible cells as invisible only), the palette, every font slot (name, size, length, glyph bytes) and the SAUCE fields. distinct_nontrivial = distinct (size, layer shapes and flags, fonts, palette length) documents"
     }
     fn meta(&self, ctx: &Ctx) -> Value {
         json!({"floor_evaluations": 500, "floor_distinct": ctx.tier.pick(500u64, 10000u64),
